@@ -129,6 +129,8 @@ def check_layout(case, stats):
     # T1 LF -> CRLF
     t1 = text.replace("\r\n", "\n").replace("\n", "\r\n")
     same(case, "T1 writing the document with CRLF line endings", base, outcome(t1, dflt))
+    if not gh.names_existing_path(t1):
+        same(case, "T1 writing the document with CRLF line endings and handing it over as a scanner object", base, outcome(None, dflt, scanner=gh.TokenScanner(t1)))
     # T0 the same characters handed over as another string object: a str subclass (as templating / i18n libraries return), a string
     # built at run time that shares nothing with the original
     class Markup(str):
@@ -337,6 +339,9 @@ def unit_corpus(a):
         for t in ("Feature: f\n Scenario: s\n  Given x" + ch, "Feature: f\n Scenario: s\n  Given x\n" + ch, "Feature: f\n Scenario: s\n  Given x\n" + ch + "\n", "Feature: f\n# c" + ch, ch + "Feature: f\n",
                   "Feature: f\n Scenario: s\n  Given x\n   | a" + ch + " |" + ch):
             cases.append({"sub": "layout", "text": t, "label": "end-of-text-characters", "choices": [5] * 24})
+    # a CR LF file of a little over 1 MiB in which a CR sits at every byte offset 32k+31, hence directly in front of every power-of-two block boundary
+    big_crlf = "Feature: f\r\n Scenario: ssssssss\r\n" + "".join("  Given %022d\r\n" % i for i in range((1 << 20) // 32 + 200))
+    cases.append({"sub": "layout", "text": big_crlf, "label": "crlf-file-over-1MiB", "choices": [0] * 24})
     from .magnitude import transition_documents
     for i, (n, t) in enumerate(transition_documents(accepted_only=False)):
         cases.append({"sub": "layout", "text": t, "label": "transition:" + n, "choices": [2] * 24})
